@@ -12,6 +12,22 @@ CHECKS = {
    text="Pure functions, so the bounded space is enumerated completely: every valid expression tree up to the depth bound, every update sequence up to length 3 over a 4-value alphabet, every split into 2 and 3 parts (merge == single state, commutative, associative, operands untouched); and for a 6-period window every pair of series masks × truncation instants for Merge, every mask × (asOf, until) pair for Truncate, every insertion order for UpdateValue, against a map[period]value reference.",
    note="PERCENTILE values are compared with single-state accumulation by the expr package itself (HDR histogram arithmetic trusted). Periods older than truncateBefore are unconstrained. SubMerge is exercised through C06/C07 queries rather than here.",
    ref="§3 C05"),
+ "C03": dict(cat="model_checking", tech="exhaustive enumeration of flush/restart schedules per insert sequence on the real DB (metamorphic + reference model)",
+   text="For every insert sequence of the bound, every flush/restart schedule (after each insert: nothing, flush, clean restart, both) is executed on the real database, with unsorted and sorted (memory-cap) forced flushes, plain and large-state (PERCENTILE, SHIFT) schemas, and long schedules crossing the truncating 10th flush; every schedule must return the rows of the no-flush schedule for 17/12 field-subset queries, equal the reference model, and give disk-only == mem-inclusive right after each flush.",
+   note="Timed flushes are explored as the forced-flush actor message (same code path apart from allowSort); real flush timers are pushed out of the way (MinFlushLatency 1h). PERCENTILE/SHIFT fields are compared schedule-vs-schedule only.",
+   ref="§3 C03"),
+ "C04": dict(cat="model_checking", tech="explicit-state: all distinct storage states × query alphabet, byte-level state comparison on the real DB",
+   text="Every distinct storage state (by decoded VerifDump key) reached by the bounded histories and placements is subjected to the whole 48/12-query alphabet with and without memstore; after each query the decoded bytes of file store and memstore and two probe queries must be unchanged, and the probes must still agree after the next flush. Thorough adds all ordered query pairs on representative states.",
+   note="Query alphabet and histories are the bound; a query outside the alphabet is not covered.",
+   ref="§3 C04"),
+ "C09": dict(cat="exploration", tech="exhaustive enumeration of ORDER BY key lists × LIMIT/OFFSET on real DBs with an independent comparator",
+   text="All key lists up to length 3 (quick) / 4 (thorough) over {_time, x, y, a, av} with all ASC/DESC assignments × LIMIT {absent,0,1,2,3,100} × OFFSET {absent,0,1,2,100} on 5 tie-heavy datasets: same multiset as unordered, sorted under an independently written lexicographic comparator, LIMIT/OFFSET slice checked by sort-key tuples.",
+   note="Ties may be broken either way; missing dims may sort to either end (consistently). Mixed-type dims are not in the datasets.",
+   ref="§3 C09"),
+ "C18": dict(cat="model_checking", tech="exhaustive placement of interfering events between row deliveries of a real scan (row callback as scheduling point)",
+   text="For 3 histories and both memstore options, every single placement (quick) and every ordered pair of placements (thorough) of 8 interfering events at every position from the scan snapshot to the last key is executed with exact quiescence inside the scan's callback; every delivered row must equal the reference model at scan start.",
+   note="Interleavings are at row-callback granularity (plus the snapshot hook); unsynchronised accesses are outside this check.",
+   ref="§3 C18"),
 }
 
 NOT_YET = {}
